@@ -180,3 +180,94 @@ theorem fused_plasma_mono (a b : Int) (h : a ≤ b) : fusedAmountToPlasma a ≤ 
         omega
 
 end ZV.C12
+
+namespace ZV.C12
+open ZV ZV.Pow
+
+/-- T4 `enough_plasma_sound`: a user block that passes `enoughPlasma` has its fused part within what the fused QSR
+    provides after subtracting the plasma already committed to the account's unconfirmed blocks, its total is exactly
+    fused + PoW plasma (no uint64 wrap), at least the base cost and at most the per-block cap. -/
+theorem enough_plasma_sound (fusedQsr : Int) (committed uncommitted fused difficulty base total : Nat)
+    (h : enoughPlasma fusedQsr committed uncommitted fused difficulty base = .ok total) :
+    (fused : Int) + uncommitted ≤ (fusedAmountToPlasma fusedQsr : Int) + committed ∧
+    total = difficultyToPlasma difficulty + fused ∧ base ≤ total ∧ total ≤ Gen.MaxPlasmaForAccountBlock := by
+  unfold enoughPlasma at h
+  cases ha : availablePlasma fusedQsr committed uncommitted with
+  | none => simp [ha] at h
+  | some avail =>
+    simp only [ha] at h
+    have hcap := difficulty_plasma_le_cap difficulty
+    have hf := fused_plasma_le_cap fusedQsr
+    -- what `available` means
+    have hav : (avail : Int) ≤ (fusedAmountToPlasma fusedQsr : Int) + committed - uncommitted := by
+      unfold availablePlasma at ha
+      simp only [] at ha
+      split at ha
+      · cases ha
+      · split at ha
+        · rename_i h1 h2
+          cases ha
+          simp only [Gen.MaxFussedAmountForAccount, Gen.MaxFussedAmountForAccountBig] at *
+          omega
+        · cases ha; omega
+    split at h
+    · cases h
+    · rename_i h1
+      split at h
+      · cases h
+      · rename_i h2
+        split at h
+        · cases h
+        · rename_i h3
+          cases h
+          -- no wrap: fused ≤ avail ≤ cap-ish and pow plasma ≤ 94500
+          have hav2 : avail ≤ Gen.MaxFussedAmountForAccount := by
+            unfold availablePlasma at ha
+            simp only [] at ha
+            split at ha
+            · cases ha
+            · split at ha
+              · cases ha; exact Nat.le_refl _
+              · rename_i h4 h5
+                cases ha
+                simp only [Gen.MaxFussedAmountForAccount, Gen.MaxFussedAmountForAccountBig] at *
+                omega
+          have hlt : difficultyToPlasma difficulty + fused < two64 := by
+            simp only [Gen.MaxFussedAmountForAccount, Gen.MaxPoWPlasmaForAccountBlock, two64] at *
+            omega
+          rw [Nat.mod_eq_of_lt hlt] at h2 h3 ⊢
+          refine ⟨by omega, rfl, by omega, by omega⟩
+
+/-- T5 `no_double_spend_of_plasma`: along a chain of unconfirmed blocks of one account, each accepted by
+    `enoughPlasma` against the same acknowledged ledger state, the fused plasma they spend in total never exceeds what
+    the fused QSR provides (each accepted block adds its fused part to the account's chain plasma). -/
+theorem no_double_spend_of_plasma (fusedQsr : Int) (committed : Nat) :
+    ∀ (blocks : List (Nat × Nat × Nat)) (uncommitted : Nat),   -- (fused, difficulty, base) per block
+      (∀ pre b post, blocks = pre ++ b :: post →
+        ∃ t, enoughPlasma fusedQsr committed (uncommitted + (pre.map (·.1)).sum) b.1 b.2.1 b.2.2 = .ok t) →
+      (blocks.map (·.1)).sum + uncommitted ≤ fusedAmountToPlasma fusedQsr + committed ∨ blocks = [] := by
+  intro blocks uncommitted hall
+  rcases List.eq_nil_or_concat blocks with h | ⟨pre, b, h⟩
+  · right; exact h
+  · left
+    rw [List.concat_eq_append] at h
+    obtain ⟨t, ht⟩ := hall pre b [] h
+    have := (enough_plasma_sound fusedQsr committed _ b.1 b.2.1 b.2.2 t ht).1
+    subst h
+    simp only [List.map_append, List.map_cons, List.map_nil, List.sum_append, List.sum_cons, List.sum_nil]
+    generalize (List.map (fun x : Nat × Nat × Nat => x.1) pre).sum = S at this ⊢
+    omega
+
+/-- T6 `base_cost`: the base cost is 21000 for receives, 21000 + 68 per data byte for plain sends, the method's table
+    cost for embedded calls (regenerated constants) -/
+theorem base_cost (isReceive : Bool) (mc : Option Nat) (n : Nat) :
+    basePlasma isReceive mc n =
+      if isReceive then 21000 else match mc with | some c => c | none => 21000 + 68 * n := by
+  unfold basePlasma
+  simp only [Gen.AccountBlockBasePlasma, Gen.ABByteDataPlasma]
+  cases isReceive <;> cases mc <;> simp <;> omega
+
+example : enoughPlasma 1000000000 0 0 21000 0 21000 = .ok 21000 := by decide
+example : enoughPlasma 1000000000 0 21000 21000 0 21000 = .notEnoughPlasma := by decide
+
+end ZV.C12
